@@ -677,7 +677,9 @@ fn cases(run: &Run) -> Vec<Case> {
                     let perm_list: Vec<u64> = if thorough {
                         // thorough bound: all 256 conforming words on one document (menu first, so that the
                         // first ten indices are the menu), the menu on the others; revision 6: the menu
-                        if r6 || *kind != DocKind::Page {
+                        if r6 && *kind != DocKind::Page {
+                            vec![all]
+                        } else if r6 || *kind != DocKind::Page {
                             menu::perm_menu()
                         } else {
                             let mut v = menu::perm_menu();
@@ -740,7 +742,7 @@ fn cases(run: &Run) -> Vec<Case> {
                                 }
                                 let patterns: Vec<usize> = if dir == 'A' {
                                     vec![0]
-                                } else if thorough && mi < 10 {
+                                } else if thorough && mi == 0 && ii == 0 {
                                     vec![0, 1, 2]
                                 } else {
                                     vec![(ci + ki + pi + mi + ii + si) % 3]
@@ -763,7 +765,7 @@ fn cases(run: &Run) -> Vec<Case> {
                                     };
                                     out.push(base.clone());
                                     // through lopdf's writer and loader: permissions = all only (thorough: the menu)
-                                    let file_too = if thorough { mi < 10 } else { *perms == all };
+                                    let file_too = if thorough { mi < 10 && !(r6 && mi > 0) } else { *perms == all };
                                     let r6_quick_file = pname == "distinct" || pname == "empty_user";
                                     if file_too && !(r6 && !thorough && (mi > 0 || !r6_quick_file)) {
                                         // direction A needs a loader that does not decrypt: both passwords non-empty
@@ -902,7 +904,7 @@ fn main() {
     run.set(
         "bounds",
         json!(if run.thorough {
-            "thorough: R<=5 - every configuration x document x password pair x {permission menu of 10 x identifier length {16,0,32} x (B) all 3 salt/IV patterns and all spellings, in memory and through writer+loader}, plus the remaining 246 conforming permission words x identifier length 16 on the page document; R6 - the same with the permission menu only"
+            "thorough: R<=5 - every configuration x document x password pair x {permission menu of 10 x identifier length {16,0,32} x (B) all spellings, in memory and through writer+loader; (B) all 3 salt/IV patterns with permissions=all and identifier length 16, one pattern in rotation elsewhere}, plus the remaining 246 conforming permission words x identifier length 16 on the page document; R6 - every configuration x document x password pair with permissions=all (in memory and through writer+loader) plus the permission menu on the page document"
         } else {
             "quick: R<=5 - every configuration x document x password pair with permissions=all and identifier length 16 (in memory and through writer+loader), identifier lengths 0/32 and the alternative spellings (B) with permissions=all, the permission menu of 10 on the page document, (B) one salt/IV pattern per case in rotation; R6 - every sixth (document, password pair) per configuration plus the permission menu on (page, distinct passwords): R5 differs from R6 only in the hash function and carries the full menu"
         }),
